@@ -1,1 +1,71 @@
-(* placeholder *)
+(* C09 -- chain is a priority union of converters and get_subconverter a restriction.
+   swf c: c is a consistent strict converter (C05); every converter built by the strict constructor is (C05_init). *)
+From Curies.model Require Import Str PyData Trie Conv Query Val Answer Spec CheckQ Mutate.
+From Curies.proofs Require Import StrFacts IndexFacts QueryFacts C04Facts MutateFacts ChainFacts.
+
+(* either ValueError (a later record bridges two earlier ones, or no input) or a converter satisfying C04 / C05 *)
+Theorem C09_raise_or_wf : forall fold_c cs sens,
+  chain fold_c cs sens = Raise EValueError \/ exists R, chain fold_c cs sens = Val R /\ swf R.
+Proof. exact chain_outcome. Qed.
+Print Assumptions C09_raise_or_wf.
+
+(* exactly the union of the inputs' CURIE prefixes and URI prefixes; what shared a record in an input shares one in R *)
+Theorem C09_union_grouping : forall fold_c cs sens R, chain fold_c cs sens = Val R ->
+  (forall k, known_p R k <-> exists c r, In c cs /\ In r (recs c) /\ In k (all_prefixes r)) /\
+  (forall k, known_u R k <-> exists c r, In c cs /\ In r (recs c) /\ In k (all_uris r)) /\
+  (forall c r, In c cs -> In r (recs c) -> exists y, In y (recs R) /\
+       (forall k, In k (all_prefixes r) -> In k (all_prefixes y)) /\ (forall k, In k (all_uris r) -> In k (all_uris y))).
+Proof. exact chain_union. Qed.
+Print Assumptions C09_union_grouping.
+
+(* case-sensitive: the first converter's records survive with their canonical prefix, URI prefix and pattern ... *)
+Theorem C09_priority : forall fold_c c1 cs R, swf c1 -> chain fold_c (c1 :: cs) true = Val R ->
+  forall y, In y (recs c1) -> exists y', In y' (recs R) /\ continues y y'.
+Proof. exact chain_priority. Qed.
+Print Assumptions C09_priority.
+(* ... so every prefix known to c1 expands exactly as c1 expands it *)
+Theorem C09_priority_expand : forall fold_c c1 cs R p i st pa, swf c1 -> chain fold_c (c1 :: cs) true = Val R ->
+  (exists y, In y (recs c1) /\ In p (all_prefixes y)) -> expand_pair R p i st pa = expand_pair c1 p i st pa.
+Proof. exact chain_priority_expand. Qed.
+Print Assumptions C09_priority_expand.
+
+(* chain([c]) is equivalent to c (case-sensitive): same records, consistent indexes *)
+Theorem C09_singleton : forall fold_c c, swf c -> exists R, chain fold_c [c] true = Val R /\ recs R = recs c /\ swf R.
+Proof. exact chain_singleton. Qed.
+Print Assumptions C09_singleton.
+
+(* case_sensitive=False: no two records of the result hold keys equal up to case *)
+Theorem C09_fold_distinct : forall fold_c cs R, chain fold_c cs false = Val R -> pairwise (ci_disjoint fold_c) (recs R).
+Proof. exact chain_fold_distinct. Qed.
+Print Assumptions C09_fold_distinct.
+
+(* get_subconverter(P): exactly the records having a canonical prefix or synonym in P, and it answers by them *)
+Theorem C09_sub : forall c P, swf c -> exists S, get_subconverter c P = Val S /\
+  recs S = sort_records (filter (keep P) (recs c)) /\ swf S /\
+  forall q, conv_query q = true -> answer S q = spec_answer (filter (keep P) (recs c)) [58%N] q.
+Proof. exact sub_ok. Qed.
+Print Assumptions C09_sub.
+(* as the parent on kept records, not at all on dropped ones *)
+Theorem C09_sub_prefixes : forall c P p, swf c ->
+  owner_by_prefix (filter (keep P) (recs c)) p =
+  match owner_by_prefix (recs c) p with Some r => if keep P r then Some r else None | None => None end.
+Proof. exact sub_owner. Qed.
+Print Assumptions C09_sub_prefixes.
+Theorem C09_sub_uris : forall c P u p r, swf c -> longest_match (recs c) u = Some (p, r) -> keep P r = true ->
+  longest_match (filter (keep P) (recs c)) u = Some (p, r).
+Proof. exact sub_longest. Qed.
+Print Assumptions C09_sub_uris.
+
+Definition r (p u : str) ps us := {| r_prefix := p; r_uri := u; r_psyn := ps; r_usyn := us; r_pat := None |}.
+Definition fc (c : chr) : str := if ((65 <=? c) && (c <=? 90))%N then [c + 32]%N else [c].
+Example C09_nonvacuous :
+  exists c1 c2, mk_conv true [58%N] [r [103;111] [104;47] [] []]%N = Val c1 /\
+                mk_conv true [58%N] [r [71;79] [105;47] [] [[104;47]]; r [120] [106;47] [] []]%N = Val c2 /\
+  (exists R, chain fc [c1; c2] true = Val R /\ map r_prefix (recs R) = [[103;111]; [120]]%N /\
+             map r_psyn (recs R) = [[[71;79]]; []]%N /\ map r_uri (recs R) = [[104;47]; [106;47]]%N) /\
+  (exists S, get_subconverter c2 [[120]]%N = Val S /\ map r_prefix (recs S) = [[120]]%N).
+Proof.
+  eexists. eexists. split; [vm_compute; reflexivity|]. split; [vm_compute; reflexivity|]. split.
+  - eexists. split; [vm_compute; reflexivity|]. vm_compute. auto.
+  - eexists. split; [vm_compute; reflexivity|]. vm_compute. auto.
+Qed.
